@@ -241,7 +241,7 @@ func c15Confinement(c *Ctx) {
 				return
 			}
 			cal := c.staticFn(ci)
-			if cal == nil || cal.Signature.Recv() == nil || typeName(cal.Signature.Recv().Type()) != "desync.HTTPHandler" || cal.Name() == "idFromPath" {
+			if cal == nil || cal.Signature.Recv() == nil || typeName(cal.Signature.Recv().Type()) != "desync.HTTPHandler" || fnKey(cal) == "HTTPHandler.idFromPath" {
 				return
 			}
 			key := "HTTPHandler.ServeHTTP:" + cal.Name()
